@@ -18,7 +18,7 @@ def stress_cases(ctx, res, n):
         pool = pool_val if res == "val" else pool_coll
         progs = [dict(rnd.choice(pool)) for _ in range(nw)]
         init = [rnd.choice([0, 1])] if res == "val" else [rnd.choice([-1, 1]), rnd.choice([-1, 2])]
-        kinds = [{"uo": rnd.random() < 0.3, "lossy": rnd.random() < 0.3, "masked": rnd.random() < 0.3, "inc": False}
+        kinds = [{"uo": rnd.random() < 0.3, "lossy": rnd.random() < 0.3, "masked": rnd.random() < 0.3, "inc": False, "pid": False}
                  for _ in range(rnd.choice([1, 2, 2]))]
         if res == "coll" and rnd.random() < 0.3:     # an include-filtered subscriber beside the others
             kinds[0] = dict(kinds[0], inc=True, lossy=False)
@@ -47,6 +47,7 @@ def run(ctx):
                 lambda: G(ctx, "ConcGen_sub2_val_mask.cfg", "val", simulate="num=20000", timeout=1800),
                 lambda: G(ctx, "ConcGen_sub2_coll_mask.cfg", "coll", simulate="num=20000", timeout=1800),
                 lambda: G(ctx, "ConcGen_sub_coll_inc.cfg", "coll", timeout=1800, limit=20000),
+                lambda: G(ctx, "ConcGen_pid_coll.cfg", "coll", timeout=1800, limit=10000),
                 lambda: G(ctx, "ConcGen_sub2_coll_inc.cfg", "coll", simulate="num=20000", timeout=1800),
                 lambda: G(ctx, "ConcGen_gc_coll.cfg", "coll", simulate="num=20000", timeout=1800),
                 lambda: G(ctx, "ConcGen_lossy_val.cfg", "val", timeout=1800, limit=20000),
@@ -65,6 +66,7 @@ def run(ctx):
                 lambda: G(ctx, "ConcGen_sub2_val_mask.cfg", "val", simulate="num=500"),
                 lambda: G(ctx, "ConcGen_sub2_coll_mask.cfg", "coll", simulate="num=500"),
                 lambda: G(ctx, "ConcGen_sub_coll_inc.cfg", "coll", simulate="num=500"),
+                lambda: G(ctx, "ConcGen_pid_coll.cfg", "coll", simulate="num=400"),
                 lambda: G(ctx, "ConcGen_sub2_coll_inc.cfg", "coll", simulate="num=700"),
                 # resources with an equivalence configured (changes equal to what the subscriber holds are suppressed)
                 lambda: G(ctx, "ConcGen_equiv_coll.cfg", "coll", simulate="num=700", equiv="coll"),
@@ -94,6 +96,13 @@ def run(ctx):
     # ... of the variant whose unconditional Delete does not compare the item's identity under the lock
     ajobs.append(lambda: A(ctx, "ConcGen_inc_norecheck.cfg", "coll", "converged", 800 if thorough else 25,
                            simulate=None if thorough else "num=6000"))
+    # ... and of the variant whose subscriptions let go of the read lock between snapshot and registration
+    ajobs.append(lambda: A(ctx, "ConcGen_snap_unlocked.cfg", "coll", "converged", 800 if thorough else 25,
+                           simulate=None if thorough else "num=4000"))
+    ajobs.append(lambda: A(ctx, "ConcGen_snap_unlocked_pid.cfg", "coll", "converged", 800 if thorough else 15,
+                           simulate=None if thorough else "num=3000"))
+    ajobs.append(lambda: A(ctx, "ConcGen_snap_unlocked_val.cfg", "val", "converged", 800 if thorough else 15,
+                           simulate=None if thorough else "num=3000"))
     if thorough:
         ajobs.append(lambda: A(ctx, "ConcGen_lossy_coll_pinned.cfg", "coll", "converged", 800))
     att = [c for r in conc_common.par(ajobs, width=3 if thorough else 6) for c in r]
